@@ -76,11 +76,25 @@ def make(tid, items, refs, short=False):
         if ok:
             return True, info
         src = r.meta[refs[0][0]]
-        env = {"kind": "ok", "vals": r.vals, "b": src["b"], "short": short, "oplen": S.opcode_len(src["m"]),
-               "dist": short_distance(r, tpl) if short else None}
+        oplen = S.opcode_len(src["m"])
+        # independent arithmetic for the single-reference templates: true displacement and whether the distance to the
+        # label ALONE (constant ignored) satisfies the tree's 8-bit rule -- used only to delimit the known-finding class
+        dtrue, label_fits8, tneg = None, None, None
+        if len(refs) == 1 and "n" in r.vals:
+            i0, lab0, kname0, sign0 = refs[0]
+            kk = sign0 * r.vals[kname0] if kname0 else 0
+            tneg = r.labels[lab0] + kk < 0
+            if "fwd" in tid:
+                dtrue = r.vals["n"] + kk
+                label_fits8 = r.vals["n"] + (oplen + 1) + 4 <= 127
+            else:
+                dtrue = -(1 + r.vals["n"] + len(src["b"])) + kk
+                label_fits8 = 1 + r.vals["n"] + (oplen + 1) + 1 <= 128
+        env = {"kind": "ok", "vals": r.vals, "b": src["b"], "short": short, "oplen": oplen, "dtrue": dtrue,
+               "label_fits8": label_fits8, "tneg": tneg, "dist": short_distance(r, tpl) if short else None}
         env.update(r.vals)
         return ctx.known(PID, tags, env), info
-    ob = Ob("C03:" + tid, body, timeout=90, tags=tags, text=tpl.text)
+    ob = Ob("C03:" + tid, body, timeout=(400 if tid.startswith("multi") else 90), tags=tags, text=tpl.text)
     ob.items = items
     return ob
 
@@ -138,6 +152,17 @@ def obligations(tier, seed):
         "idx-between": ([("org", "H4"), ("lit", "w", "D3"), ("ins", "P1", "LDA", "T,PCR"), ("ins", "", "LDB", "{w},X"),
                          ("gap", "n", G), ("ins", "T", "NOP", "")], [(1, "T", None, 1)]),
     }
+    for kchain in ([3, 5] if not full else [3, 4, 5, 8]):
+        items = [("org", "H4"), ("ins", "P0", "LDA", "NEAR,PCR")]
+        for j in range(kchain):
+            items.append(("ins", "", "LDB", "FAR,PCR"))
+        items += [("gap", "n", 200), ("ins", "NEAR", "NOP", ""), ("gap", "n2", 400), ("ins", "FAR", "NOP", "")]
+        multi["chain%d" % kchain] = (items, [(1, "NEAR", None, 1)] + [(2 + j, "FAR", None, 1) for j in range(kchain)])
+        itemsb = [("org", "H4"), ("ins", "FARB", "NOP", ""), ("gap", "n2", 400), ("ins", "NEARB", "NOP", ""), ("gap", "n", 200)]
+        for j in range(kchain):
+            itemsb.append(("ins", "", "LDB", "FARB,PCR"))
+        itemsb.append(("ins", "P0", "LDA", "NEARB,PCR"))
+        multi["chainb%d" % kchain] = (itemsb, [(5 + kchain, "NEARB", None, 1)] + [(5 + j, "FARB", None, 1) for j in range(kchain)])
     for name, (items, refs) in multi.items():
         # the "lit" items must precede their use but not shift ins indices: prog.run handles lit first
         lits = [it for it in items if it[0] == "lit"]
